@@ -142,6 +142,8 @@ impl IoLoopHandle {
     }
 
     fn recv(&mut self) -> Result<ChannelMessage> {
+        #[cfg(amiquip_verif)]
+        crate::verif::emit("recv_begin", &[("ch", i64::from(self.channel_id))]);
         self.rx.recv().map_err(|_| Error::EventLoopDropped)?
     }
 
@@ -195,6 +197,8 @@ impl IoLoopHandle0 {
         self.alloc_chan_req_tx
             .send(channel_id)
             .map_err(|_| self.common.check_recv_for_error())?;
+        #[cfg(amiquip_verif)]
+        crate::verif::emit("alloc_sent", &[]);
         self.alloc_chan_rep_rx
             .recv()
             .map_err(|_| Error::EventLoopDropped)?
